@@ -93,13 +93,31 @@ pub fn parse_report_names(rep: &str, tb: &Tables, names: &[String]) -> Parsed {
             continue;
         }
         let mut start = 0;
+        let mut found = false;
         while let Some(i) = rep[start..].find(text.as_str()) {
             let pos = start + i;
             p.sections.push((pos, *pat));
+            found = true;
             for b in pos..pos + text.len() {
                 masked[b] = true;
             }
             start = pos + text.len();
+        }
+        // a layout may put lines of its own (anchors, rules) between the lines of an explanatory text: then the text is
+        // recognised by its first non-blank line, standing on a line of its own
+        if !found {
+            if let Some(first) = text.lines().find(|l| !l.trim().is_empty()) {
+                let mut off = 0;
+                for line in rep.split_inclusive('\n') {
+                    if line.trim_end_matches(['\n', '\r']) == first {
+                        p.sections.push((off, *pat));
+                        for b in off..off + line.len() {
+                            masked[b] = true;
+                        }
+                    }
+                    off += line.len();
+                }
+            }
         }
     }
     p.sections.sort();
